@@ -46,9 +46,9 @@ class Path:
         parts = []
         for s in self.steps:
             if s[0] == "cond":
-                parts.append(f"[{short(s[1], 40)}={'T' if s[2] else 'F'}@{getattr(s[1], 'lineno', '?')}]")
+                parts.append(f"[{short(s[1], 40)}={'T' if s[2] else 'F'}@{getattr(s[1], 'orig_lineno', getattr(s[1], 'lineno', '?'))}]")
         return "entry " + " ".join(parts) + f" -> {self.exit}" + (
-            f"@{getattr(self.exit_node, 'lineno', '?')}" if self.exit_node is not None else ""
+            f"@{getattr(self.exit_node, 'orig_lineno', getattr(self.exit_node, 'lineno', '?'))}" if self.exit_node is not None else ""
         )
 
 
